@@ -33,10 +33,16 @@ pub fn sig_cmp(g: &str, b1: u8, a1: u32, b2: u8, a2: u32) -> Option<std::cmp::Or
     by_gnss!(g, T => T::new(b1, a1).cmp(&T::new(b2, a2)))
 }
 
+pub fn sig_pcmp(g: &str, b1: u8, a1: u32, b2: u8, a2: u32) -> Option<Option<std::cmp::Ordering>> {
+    let (a1, a2) = (char::from_u32(a1)?, char::from_u32(a2)?);
+    by_gnss!(g, T => T::new(b1, a1).partial_cmp(&T::new(b2, a2)))
+}
+
+/// `Ord::cmp` and `PartialOrd::partial_cmp`
 pub fn op_sigcmp(g: &str, b1: u8, a1: u32, b2: u8, a2: u32) -> String {
-    match sig_cmp(g, b1, a1, b2, a2) {
-        Some(o) => format!("{:?}", o),
-        None => "BAD-OP".into(),
+    match (sig_cmp(g, b1, a1, b2, a2), sig_pcmp(g, b1, a1, b2, a2)) {
+        (Some(o), Some(p)) => format!("{:?} {}", o, p.map(|x| format!("{:?}", x)).unwrap_or_else(|| "None".into())),
+        _ => "BAD-OP".into(),
     }
 }
 
@@ -64,6 +70,12 @@ pub fn oracle_sigcmp(g: &str, b1: u8, a1: u32, b2: u8, a2: u32) -> String {
     }
     if !v1 && v2 && x != Greater {
         return format!("FAIL unrecognised vs recognised compares {:?}", x);
+    }
+    // partial_cmp: defined exactly between recognised descriptors, and then equal to cmp
+    match sig_pcmp(g, b1, a1, b2, a2) {
+        Some(Some(p)) if v1 && v2 && p == x => {}
+        Some(None) if !(v1 && v2) => {}
+        p => return format!("FAIL partial_cmp gives {:?} where cmp gives {:?} (recognised: {} {})", p, x, v1, v2),
     }
     "PASS".into()
 }
